@@ -65,6 +65,18 @@ def factMethods : MethodTable := fun f ncalls st recv args =>
       | some n => .ran (.ok (valOf (p ++ [.fld "P"]) n)) st false
       | none => .ran (unmodelled "GetP") st false
     | "GetP", _ => .badArgs
+    | "GetA", [] => match fldOf st p "A" with
+      | some n => .ran (.ok (valOf (p ++ [.fld "A"]) n)) st false
+      | none => .ran (unmodelled "GetA") st false
+    | "GetA", _ => .badArgs
+    | "GetA2", [] => match fldOf st p "A" with
+      | some n => .ran (.ok (valOf (p ++ [.fld "A"]) n)) st false
+      | none => .ran (unmodelled "GetA2") st false
+    | "GetA2", _ => .badArgs
+    | "GetM", [] => match fldOf st p "M" with
+      | some n => .ran (.ok (valOf (p ++ [.fld "M"]) n)) st false
+      | none => .ran (unmodelled "GetM") st false
+    | "GetM", _ => .badArgs
     | "Score", [.int .int64 k] =>
       -- only *Sub has Score; Fact has not
       -- (pointer receiver: not in the method set of a struct held by value)
